@@ -26,12 +26,13 @@ class _Raise(Exception):
 
 
 class ShapeEval:
-    def __init__(self, functions, lookup=None, self_class=None):
+    def __init__(self, functions, lookup=None, self_class=None, hooks=None):
         """functions: name -> FunctionDef (e.g. {'Shape._unify': <ast>, 'unsigned': ..}); lookup(qualname) -> FunctionDef
         or None resolves further callees on demand; self_class names the class `self.<method>` calls bind to"""
         self.functions = functions
         self.lookup = lookup
         self.self_class = self_class
+        self.hooks = hooks or {}     # dotted callee name -> python function(args) evaluated instead of the call
         self.steps = 0
 
     def resolve(self, name):
@@ -96,6 +97,19 @@ class ShapeEval:
             if isinstance(s, ast.If):
                 c = self.truth(self.ev(s.test, env), s.test)
                 self.block(s.body if c else s.orelse, env)
+                continue
+            if isinstance(s, ast.Try):
+                # handlers are not followed: the evaluated cases do not raise
+                self.block(s.body, env)
+                self.block(s.orelse, env)
+                self.block(s.finalbody, env)
+                continue
+            if isinstance(s, ast.AugAssign) and isinstance(s.target, ast.Name):
+                cur = env[s.target.id]
+                val = self.ev(ast.BinOp(left=ast.Name(id=s.target.id, ctx=ast.Load()), op=s.op, right=s.value), env)
+                env[s.target.id] = val
+                continue
+            if isinstance(s, ast.Pass):
                 continue
             if isinstance(s, ast.For):
                 it = self.ev(s.iter, env)
@@ -217,6 +231,8 @@ class ShapeEval:
                 else:
                     args.append(self.ev(a, env))
             kw = {k.arg: self.ev(k.value, env) for k in e.keywords}
+            if fn in self.hooks:
+                return self.hooks[fn](args)
             # value.shape() on an operand whose shape is known
             if isinstance(e.func, ast.Attribute) and e.func.attr == "shape" and not args:
                 base = self.ev(e.func.value, env)
